@@ -12,6 +12,11 @@ Bounded exhaustive exploration of calc_rdm_unbalanced / calc_one_similarity:
             of the observations as folds), cross-validated methods
   bal       fold-balanced designs K conditions x M folds x R repetitions in four row orders
             (here the cross-validated methods must coincide with calc_rdm)
+  extra     descriptor=None on datasets that ALREADY carry an obs descriptor with a reserved-looking
+            name ('index', 'cv_desc', 'conds'): every partition of n <= 4 (thorough 5) observations as its
+            pattern of repeated values (ints / strings) and distinct permuted values; the result must
+            have one condition per observation labelled 0..n-1, equal the reference / calc_rdm, and
+            leave the caller's descriptor alone
   oob_probe the configuration class 'precision + missing channel' is executed in a CHILD process
             only (the compiled kernel reads past a heap buffer there - known finding); everywhere
             else that class is skipped and counted under `not_explored_because_known`
@@ -49,7 +54,9 @@ RULE = ('Every set partition of n<=5 observations into condition labels x P in {
         'for n<=4) x label naming (ascending, descending, strings, all k! for k<=3, descriptor=None) '
         'x data fill (generic floats, integer valued) x dtype (float64, int64) x memory layout (C, F); '
         'fold-balanced designs K in {2,3} x M in {2,3} x R in {1,2} in four row orders with every '
-        'single-cell / whole-channel / whole-observation mask.  One evaluation = one real '
+        'single-cell / whole-channel / whole-observation mask; descriptor=None on datasets already carrying '
+        'an obs descriptor named index / cv_desc / conds with repeated (every partition) or permuted values.  '
+        'One evaluation = one real '
         'calc_rdm_unbalanced (or calc_rdm) call whose every returned label and value was judged; '
         'calc_one_similarity calls (one per condition pair incl. the diagonal) are counted under '
         'counters.helper_calls.  Non-trivial = at least one pair value is defined and finite in the '
@@ -87,6 +94,10 @@ BOUNDS = {
               'fold_partitions': 'n<=4: every labeling x every fold partition, masks of <=1 cell + whole',
               'balanced': 'K,M in {2,3}, R in {1,2}; 4 row orders; masks: none, every cell, whole channel, '
                           'whole observation (+ every pair of cells for <=6 rows)',
+              'existing_descriptors': "descriptor=None with an existing 'index' / 'cv_desc' / 'conds' obs descriptor: "
+                                      'every partition of n in 2..4 as its value pattern (ints, strings), reversed and '
+                                      'rotated distinct values; 16 method configurations + crossnobis with folds; '
+                                      "complete data and two single-cell masks for 'index'",
               'fills': 'generic float fill + integer fill (complete data)',
               'layout/dtype variants': 'F order on every third case (rotating through configurations and '
                                        'masks), int64 C/F + F on every integer-fill case'},
@@ -294,9 +305,38 @@ def _fail_exc(ctx, sigprefix, case, e):
 _PASS = (_runner.HarnessError, KeyboardInterrupt, SystemExit, MemoryError)
 
 
-def _dataset(X, labels, folds):
+def _extra(case):
+    """an obs descriptor the dataset already carries when it is handed to the library (design key
+    'extra' = [name, kind]): a user column with a 'reserved-looking' name.  kind 'part' = the group
+    codes of the design's partition (repeated values unless all groups are singletons), 'rev' /
+    'rot' = distinct values that are a permutation of 0..n-1, 'str' = the group codes as strings.
+    It never is the condition descriptor: these designs are called with descriptor=None, so every
+    observation is its own condition whatever the dataset carries."""
+    d = case['design']
+    ex = d.get('extra')
+    if not ex:
+        return None
+    name, kind = ex
+    part = d['part']
+    n = len(part)
+    if kind == 'part':
+        vals = [int(g) for g in part]
+    elif kind == 'str':
+        vals = ['s%d' % g for g in part]
+    elif kind == 'rev':
+        vals = list(range(n - 1, -1, -1))
+    elif kind == 'rot':
+        vals = [(i + 1) % n for i in range(n)]
+    else:
+        raise ValueError(kind)
+    return name, vals
+
+
+def _dataset(X, labels, folds, extra=None):
     from rsatoolbox.data import Dataset
     obs = {}
+    if extra is not None:
+        obs[extra[0]] = np.array(extra[1]) if isinstance(extra[1][0], int) else list(extra[1])
     if labels is not None:
         obs['cond'] = list(labels)
     if folds is not None:
@@ -309,7 +349,8 @@ def _lib_full(ctx, case, X, labels, folds, prec, cls, op='calc_rdm_unbalanced'):
     from rsatoolbox.rdm import calc_rdm, calc_rdm_unbalanced
     prior = case.get('prior') or [1, 0.1]
     try:
-        ds = _dataset(X, labels, folds)
+        extra = _extra(case)
+        ds = _dataset(X, labels, folds, extra)
         desc = 'cond' if labels is not None else None
         cvd = 'fold' if folds is not None else None
         if op == 'calc_rdm_unbalanced':
@@ -333,6 +374,19 @@ def _lib_full(ctx, case, X, labels, folds, prec, cls, op='calc_rdm_unbalanced'):
                     name, rd.pattern_descriptors))
                 return None
             labs = [ref.plain(v) for v in pd]
+        if extra is not None and op == 'calc_rdm_unbalanced':
+            # the caller's dataset keeps its descriptor; a pattern descriptor of that name (other than
+            # the per-observation 'index' the call defines) must carry the observations' own values
+            kept = [ref.plain(v) for v in ds.obs_descriptors[extra[0]]]
+            if kept != list(extra[1]):
+                ctx.fail('calc_rdm_unbalanced|descriptor=None,existing-obs-descriptor|input-descriptor-changed', case,
+                         'obs descriptor %r of the caller\'s dataset was %r, is %r after the call' % (
+                             extra[0], extra[1], kept))
+            pdx = rd.pattern_descriptors.get(extra[0])
+            if extra[0] != 'index' and pdx is not None and [ref.plain(v) for v in pdx] != list(extra[1]):
+                ctx.fail('calc_rdm_unbalanced|descriptor=None,existing-obs-descriptor|pattern-descriptor-wrong', case,
+                         'one condition per observation, yet pattern descriptor %r is %r for observation values %r' % (
+                             extra[0], [ref.plain(v) for v in pdx], extra[1]))
         return labs, vec[0]
     except _PASS:
         raise
@@ -752,6 +806,12 @@ def shards(tier, seed):
         out.append({'kind': 'lab', 'ns': [1, 2, 3], 'P': 4, 'parts': None})
         for p in range(combi.BELL[4]):
             out.append({'kind': 'lab', 'ns': [4], 'P': 4, 'parts': [p, p + 1]})
+    # descriptor=None on datasets that already carry 'index' / 'cv_desc' / 'conds' descriptors
+    for n_ch in (2, 3):
+        out.append({'kind': 'extra', 'ns': [2, 3], 'P': n_ch})
+        out.append({'kind': 'extra', 'ns': [4], 'P': n_ch})
+        if th:
+            out.append({'kind': 'extra', 'ns': [5], 'P': n_ch})
     # every labeling x every fold partition
     for n_ch in (2, 3):
         out.append({'kind': 'foldpart', 'ns': [2, 3], 'P': n_ch, 'parts': None})
@@ -828,6 +888,33 @@ def run_shard(shard, ctx):
                                         if th and fill == 1 and method in ('poisson', 'poisson_cv'):
                                             case['prior'] = [2, 0.5]
                                         run_case(case, ctx)
+    elif kind == 'extra':
+        # descriptor=None on a dataset that already carries an obs descriptor called 'index' / 'cv_desc' /
+        # 'conds': repeated values (every partition as the value pattern, ints and strings) and distinct
+        # permuted values; the result must have one condition per observation, labelled 0..n-1
+        for n in shard['ns']:
+            parts = _partitions(n)
+            idx = 0
+            for pidx, part in enumerate(parts):
+                k = max(part) + 1
+                extras = [[name, 'part'] for name in ('index', 'cv_desc', 'conds')] + [['index', 'str']]
+                if k == n:
+                    extras += [['index', 'rev'], ['index', 'rot'], ['cv_desc', 'rev']]
+                for extra in extras:
+                    masks = [[]] + ([[0], [n * n_ch - 1]] if extra[0] == 'index' else [])
+                    for mask in masks:
+                        for fold in (None, 'alt'):
+                            for method, prec in _configs(fold, bool(mask), ctx.tier):
+                                if fold == 'alt' and (method, prec) != ('crossnobis', 'none'):
+                                    continue
+                                for weighting in W2:
+                                    idx += 1
+                                    for fill in ([0, 'int'] if (th and not mask) else [0]):
+                                        run_case({'kind': 'lab', 'P': n_ch, 'fill': fill, 'mask': mask,
+                                                  'method': method, 'weighting': weighting, 'prec': prec,
+                                                  'variants': _variants(fill, bool(mask), idx, ctx.tier),
+                                                  'design': {'type': 'lab', 'part': part, 'naming': 'index',
+                                                             'fold': fold, 'extra': extra}}, ctx)
     elif kind == 'foldpart':
         for n in shard['ns']:
             parts = _partitions(n)
